@@ -168,7 +168,8 @@ Proof. intros Hr Hv. apply in_flat_map. now exists r. Qed.
 Theorem section_counted rs r x name v :
   In r rs -> e_counters_ok r -> In x (p_sections r) -> In (name, v) (sec_entries E x) ->
   exists cnt, In (name, cnt) (term_counters (counters_of rs)) /\ In v (map fst cnt) /\ cnt <> [] /\
-              (length_indexed name = true -> forall k, In k (map fst cnt) -> slen k = slen v).
+              (length_indexed name = true -> forall k, In k (map fst cnt) -> slen k = slen v) /\
+              exists items, cnt = Counters.tally items.
 Proof.
   intros Hr Hc Hx He. destruct x as [t [l|]]; [|contradiction].
   destruct Hc as (C0 & _ & _ & C3 & C4 & _ & _ & C6 & C7 & _ & _ & _ & _ & _ & _ & C5 & C5m).
@@ -179,8 +180,8 @@ Proof.
     assert (Hin : In t (flat_map p_walks rs)).
     { apply (in_flat_map_of p_walks rs r); [assumption|]. eapply Permutation_in; [apply Permutation_sym; exact C0|].
       now apply (in_texts 0 (t, Some (LK n))). }
-    destruct (in_lnamed 75 _ t Hin) as (cnt & H1 & H2 & H3 & _). exists cnt.
-    split; [rewrite !in_app_iff; tauto|]. split; [assumption|]. split; [eapply Hne; eassumption|]. intros _. exact H3.
+    destruct (in_lnamed 75 _ t Hin) as (cnt & H1 & H2 & H3 & H4). exists cnt.
+    split; [rewrite !in_app_iff; tauto|]. split; [assumption|]. split; [eapply Hne; eassumption|]. split; [intros _; exact H3|eauto].
   - contradiction.
   - contradiction.
   - (* Y *) destruct He as [He|[]]. injection He as <- <-.
@@ -189,37 +190,37 @@ Proof.
       now apply (in_texts 3 (t, Some LY)). }
     exists (Counters.tally (flat_map p_years rs)). split; [rewrite !in_app_iff; simpl; tauto|].
     assert (Hk : In t (map fst (Counters.tally (flat_map p_years rs)))) by now apply tally_keys_in.
-    split; [assumption|]. split; [eapply Hne; eassumption|]. discriminate.
+    split; [assumption|]. split; [eapply Hne; eassumption|]. split; [discriminate|eauto].
   - (* X *) destruct He as [He|[]]. injection He as <- <-.
     assert (Hin : In t (flat_map p_context rs)).
     { apply (in_flat_map_of p_context rs r); [assumption|]. eapply Permutation_in; [apply Permutation_sym; exact C4|].
       now apply (in_texts 4 (t, Some LX)). }
     exists (Counters.tally (flat_map p_context rs)). split; [rewrite !in_app_iff; simpl; tauto|].
     assert (Hk : In t (map fst (Counters.tally (flat_map p_context rs)))) by now apply tally_keys_in.
-    split; [assumption|]. split; [eapply Hne; eassumption|]. discriminate.
+    split; [assumption|]. split; [eapply Hne; eassumption|]. split; [discriminate|eauto].
   - (* A *) destruct He as [He|[He|[]]]; injection He as <- <-.
     + assert (Hin : In (map (lower1 (e_lower E)) t) (flat_map p_alpha rs)).
       { apply (in_flat_map_of p_alpha rs r); [assumption|]. rewrite C5. apply in_map.
         now apply (in_texts 5 (t, Some (LA n))). }
-      destruct (in_lnamed 65 _ _ Hin) as (cnt & H1 & H2 & H3 & _). rewrite slen_map in H1. exists cnt.
-      split; [rewrite !in_app_iff; tauto|]. split; [assumption|]. split; [eapply Hne; eassumption|]. intros _. exact H3.
+      destruct (in_lnamed 65 _ _ Hin) as (cnt & H1 & H2 & H3 & H4). rewrite slen_map in H1. exists cnt.
+      split; [rewrite !in_app_iff; tauto|]. split; [assumption|]. split; [eapply Hne; eassumption|]. split; [intros _; exact H3|eauto].
     + assert (Hin : In (case_mask (e_isupper E) t) (flat_map p_masks rs)).
       { apply (in_flat_map_of p_masks rs r); [assumption|]. rewrite C5m. apply in_map.
         now apply (in_texts 5 (t, Some (LA n))). }
-      destruct (in_lnamed 67 _ _ Hin) as (cnt & H1 & H2 & H3 & _). rewrite slen_case_mask in H1. exists cnt.
-      split; [rewrite !in_app_iff; tauto|]. split; [assumption|]. split; [eapply Hne; eassumption|]. intros _. exact H3.
+      destruct (in_lnamed 67 _ _ Hin) as (cnt & H1 & H2 & H3 & H4). rewrite slen_case_mask in H1. exists cnt.
+      split; [rewrite !in_app_iff; tauto|]. split; [assumption|]. split; [eapply Hne; eassumption|]. split; [intros _; exact H3|eauto].
   - (* D *) destruct He as [He|[]]. injection He as <- <-.
     assert (Hin : In t (flat_map p_digits rs)).
     { apply (in_flat_map_of p_digits rs r); [assumption|]. eapply Permutation_in; [apply Permutation_sym; exact C6|].
       now apply (in_texts 6 (t, Some (LD n))). }
-    destruct (in_lnamed 68 _ t Hin) as (cnt & H1 & H2 & H3 & _). exists cnt.
-    split; [rewrite !in_app_iff; tauto|]. split; [assumption|]. split; [eapply Hne; eassumption|]. intros _. exact H3.
+    destruct (in_lnamed 68 _ t Hin) as (cnt & H1 & H2 & H3 & H4). exists cnt.
+    split; [rewrite !in_app_iff; tauto|]. split; [assumption|]. split; [eapply Hne; eassumption|]. split; [intros _; exact H3|eauto].
   - (* O *) destruct He as [He|[]]. injection He as <- <-.
     assert (Hin : In t (flat_map p_other rs)).
     { apply (in_flat_map_of p_other rs r); [assumption|]. eapply Permutation_in; [apply Permutation_sym; exact C7|].
       now apply (in_texts 7 (t, Some (LO n))). }
-    destruct (in_lnamed 79 _ t Hin) as (cnt & H1 & H2 & H3 & _). exists cnt.
-    split; [rewrite !in_app_iff; tauto|]. split; [assumption|]. split; [eapply Hne; eassumption|]. intros _. exact H3.
+    destruct (in_lnamed 79 _ t Hin) as (cnt & H1 & H2 & H3 & H4). exists cnt.
+    split; [rewrite !in_app_iff; tauto|]. split; [assumption|]. split; [eapply Hne; eassumption|]. split; [intros _; exact H3|eauto].
 Qed.
 
 End Train.
